@@ -178,8 +178,8 @@ theorem unifyLaws_std (base : Env) : UnifyLaws (Env.std base) where
 
 /-- the set parameters of `Env.simple` are untouched by `Env.std` -/
 theorem setLaws_simple_std : SetLaws (Env.std Env.simple) where
-  hash_ok := fun t p => setLaws_simple.hash_ok t p
-  equiv_ok := fun t a b => setLaws_simple.equiv_ok t a b
+  hash_ok := fun t p hw hm => setLaws_simple.hash_ok t p hw hm
+  equiv_ok := fun t a b hw ha hb => setLaws_simple.equiv_ok t a b hw ha hb
 
 end Unify
 end CtyModel
